@@ -28,7 +28,9 @@ def units(tier, seed=0):
     if tier == 'quick':
         light = [n for n in rows if ISA[n].family not in ('mul', 'blk')]  # (multiply rows: thorough tier; block
         # transfers: windowed register lists below)
-        us += famcheck.family_units(fams, [7], T, only=light, tag='/operands', reg_values='distinct')
+        # (outside IT blocks: the IT-state dependence of decode is the decoder-path claim above; conditional
+        # execution inside blocks is C05/C08 and the thorough tier here)
+        us += famcheck.family_units(fams, [7], T, only=light, tag='/operands', reg_values='distinct', it='none')
     else:
         us += famcheck.family_units(fams, [7], T, only=[n for n in rows if ISA[n].family != 'blk'], tag='/operands')
     from spec import isa_blk
@@ -41,6 +43,7 @@ def units(tier, seed=0):
                 opts = dict(opts, tables=T)
                 if tier == 'quick':
                     opts['reg_values'] = 'distinct'
+                    opts['it'] = 'none'
                 us.append(UnitSpec(uname + '/operands', 'vf.step', 'mk_step', opts, max_seconds=1800, weight=3))
     return us
 
@@ -54,7 +57,7 @@ META = {
                    'hw1[15:11] only. Operand extraction incl. ThumbExpandImm is covered by the functional rows '
                    '(C01-C04, C09, C12) and the C17 lemma.',
     'bounds': ['exhaustive over all 16-bit and 32-bit Thumb words within the table coverage'],
-    'bounds_rows': ['quick: operand rows run with a fixed register file of pairwise distinct values (instruction word, flags, IT state, memory symbolic); thorough: registers symbolic'],
+    'bounds_rows': ['quick: operand rows run outside IT blocks with a fixed register file of pairwise distinct values (instruction word, flags, mode, memory symbolic); thorough: registers and ITSTATE symbolic'],
     'outside': ['VFP / Advanced SIMD spaces', 'UNPREDICTABLE forms'],
     'stubs': stubs.STUBS_DOC,
     'trusted_base': ['z3', 'symx engine', 'encoding diagrams in spec/isa_*.py'],
